@@ -60,8 +60,9 @@ LEAN_KEYWORDS = {"at", "from", "end", "fun", "have", "show", "then", "else", "if
 class FnTrans:
     def __init__(self, job, decl, known):
         self.job, self.decl, self.known = job, decl, known
-        self.name = decl["name"]
+        self.name = job.get("lean_names", {}).get(decl["name"], decl["name"])
         self.tmap = job.get("types", {})
+        self.paths = job.get("paths", {})       # access path text (e.g. "rhs.conn().id()") -> (lean text, lean type)
         self.counter = {}
         self.helpers = []        # (text) loop helper definitions emitted before the function
         self.nloops = 0
@@ -89,11 +90,12 @@ class FnTrans:
 
     # ---- types
     def lean_type(self, qt, param=False):
-        q = qt.replace("const ", "").replace("Avoid::", "").replace("vpsc::", "").replace("dialect::", "").replace("topology::", "").strip()
+        q = qt.replace("const ", "").replace("Avoid::", "").replace("vpsc::", "").replace("dialect::", "").replace("topology::", "").replace("cola::", "").strip()
         kind = "val"
         if q.endswith("&"): q = q[:-1].strip()
         if q.endswith("*"):
             q = q[:-1].strip(); kind = "out"
+            if q in self.job.get("ptr_vals", []): kind = "val"     # pointer to an object read only through job["paths"]
         base = {"double": "Rat", "int": "Int", "bool": "Bool", "unsigned int": "Nat", "size_t": "Nat",
                 "unsigned long": "Nat", "Point": "Pt", "unsigned": "Nat"}
         base.update({"Polygon": "List Pt", "std::vector<Point>": "List Pt", "PolygonInterface": "List Pt"})
@@ -117,9 +119,30 @@ class FnTrans:
         if not ps: return None
         return " && ".join("(%s)" % p for p in ps)
 
+    def path_of(self, n):
+        """textual access path of an expression made of this / parameters / member reads / nullary member calls"""
+        k = n.get("kind")
+        if k in ("ImplicitCastExpr", "ParenExpr", "MaterializeTemporaryExpr", "ExprWithCleanups"):
+            if k == "ImplicitCastExpr" and n.get("castKind") not in ("LValueToRValue", "NoOp", "DerivedToBase", "UncheckedDerivedToBase"):
+                return None
+            return self.path_of(n["inner"][0])
+        if k == "CXXThisExpr": return "this"
+        if k == "DeclRefExpr" and n["referencedDecl"]["kind"] in ("ParmVarDecl",): return n["referencedDecl"]["name"]
+        if k == "MemberExpr":
+            b = self.path_of(n["inner"][0])
+            return None if b is None else b + "." + n["name"]
+        if k == "CXXMemberCallExpr" and len([c for c in n["inner"] if isinstance(c, dict)]) == 1:
+            b = self.path_of(n["inner"][0])
+            return None if b is None else b + "()"
+        return None
+
     def expr(self, n, env):
         k = n.get("kind")
         inner = [c for c in n.get("inner", []) if isinstance(c, dict)]
+        if self.paths:
+            pth = self.path_of(n)
+            if pth is not None and pth in self.paths:
+                return self.paths[pth][0], self.paths[pth][1], None
         if k in ("ParenExpr",):
             t, ty, p = self.expr(inner[0], env); return "(%s)" % t, ty, p
         if k in ("ExprWithCleanups", "MaterializeTemporaryExpr", "CXXBindTemporaryExpr", "ConstantExpr",
@@ -286,6 +309,11 @@ class FnTrans:
                 return "(%sR %s %s)" % (cname, a, b), ta, self.conj(pa, pb)
             if cname == "epsilon":
                 return "dblEpsilon", "Rat", None
+            if cname == "isnan":
+                # doubles are modelled as Rat (finite, never NaN): recorded in the trusted base
+                t, ty, p = self.expr(rawargs[0], env)
+                if ty != "Rat": raise Unsupported("%s: isnan on %s" % (self.name, ty))
+                return "false", "Bool", p
             if cname == "signbit":
                 raise Unsupported("signbit needs the SZ type map")
             if cname not in self.known:
@@ -762,15 +790,27 @@ set_option linter.unusedVariables false
 """
 
 
-def const_value(docs, name, lookup):
+def const_value(docs, name, lookup, redump=None):
     """numeric value of a `static const T name = <literal | other constant | -literal>` or enum constant"""
     found = []
-    def walk(n):
-        if n.get("kind") in ("VarDecl", "EnumConstantDecl") and n.get("name") == name and n.get("inner"):
-            found.append(n)
+    enum_parent = []
+    def walk(n, parent=None):
+        if n.get("kind") in ("VarDecl", "EnumConstantDecl") and n.get("name") == name:
+            if n.get("inner"): found.append(n)
+            elif n.get("kind") == "EnumConstantDecl" and parent is not None and parent.get("kind") == "EnumDecl":
+                enum_parent.append(parent)
         for c in n.get("inner", []):
-            if isinstance(c, dict): walk(c)
-    for d in docs: walk(d)
+            if isinstance(c, dict): walk(c, n)
+    for d in docs:
+        if d.get("kind") == "EnumConstantDecl" and d.get("name") == name and not d.get("inner") and redump is not None:
+            # the filter dumped the bare enumerator: dump its enum (named by the enumerator's type) to count positions
+            en = d["type"]["qualType"].split("::")[-1]
+            def walk2(n):
+                if n.get("kind") == "EnumDecl" and any(c.get("name") == name for c in n.get("inner", [])): enum_parent.append(n)
+                for c in n.get("inner", []):
+                    if isinstance(c, dict): walk2(c)
+            for d2 in redump(en): walk2(d2)
+        walk(d)
     def ev(n):
         k = n.get("kind")
         if k in ("ImplicitCastExpr", "ParenExpr", "ConstantExpr", "CStyleCastExpr", "CXXStaticCastExpr"): return ev(n["inner"][0])
@@ -783,6 +823,15 @@ def const_value(docs, name, lookup):
         inner = [c for c in n["inner"] if isinstance(c, dict) and c.get("kind") not in ("FullComment",)]
         if inner:
             return ev(inner[-1])
+    for par in enum_parent:
+        if par is None: continue
+        # enumerator without initialiser: previous enumerator + 1 (first: 0), C++ [dcl.enum]
+        val = -1
+        for c in par.get("inner", []):
+            if c.get("kind") != "EnumConstantDecl": continue
+            init = [x for x in c.get("inner", []) if isinstance(x, dict) and x.get("kind") not in ("FullComment",)]
+            val = ev(init[-1]) if init else val + 1
+            if c.get("name") == name: return val
     raise Unsupported("constant %s: no definition with initialiser found" % name)
 
 
@@ -793,7 +842,7 @@ def resolve_constants(job, src, incl):
     cache = {}
     def lookup(nm):
         if nm not in cache:
-            cache[nm] = const_value(clang_ast(src, nm, incl), nm, lookup)
+            cache[nm] = const_value(clang_ast(src, nm, incl), nm, lookup, lambda en: clang_ast(src, en, incl))
         return cache[nm]
     consts = dict(job.get("constants", {})); enums = dict(job.get("enums", {}))
     for nm, lt in names.items():
@@ -809,23 +858,45 @@ def resolve_constants(job, src, incl):
 
 
 def run_job(job, repo):
-    """job: dict(src=relative path, functions=[...], ns=..., out=path, imports=[...], opens=[...])"""
+    """job: dict(src=relative path, functions=[...], ns=..., out=path, imports=[...], opens=[...]);
+    or dict(parts=[{src, functions, ...overrides}], ns, out, ...): several sources into one Lean file"""
+    if "parts" in job:
+        text, known = "", {}
+        for part in job["parts"]:
+            pj = dict(job); pj.pop("parts"); pj.update(part)
+            t, k = run_job_body(pj, repo, known)
+            text += "-- from %s\n%s" % (part["src"], t)
+            known.update(k)
+        head = PRELUDE.format(src=", ".join(p_["src"] for p_ in job["parts"]), ns=job["ns"],
+                              imports="\n".join("import " + i for i in job.get("imports", [])),
+                              opens="\n".join("open " + o for o in job.get("opens", [])))
+        return head + text + "end %s\n" % job["ns"], known
+    text, known = run_job_body(job, repo, dict(job.get("known", {})))
+    head = PRELUDE.format(src=job["src"], ns=job["ns"],
+                          imports="\n".join("import " + i for i in job.get("imports", [])),
+                          opens="\n".join("open " + o for o in job.get("opens", [])))
+    return head + text + "end %s\n" % job["ns"], known
+
+
+def run_job_body(job, repo, known):
     src = str(repo / job["src"])
     incl = str(repo / "cola")
     job = dict(job)
     resolve_constants(job, src, incl)
     with ThreadPoolExecutor(16) as ex:
         asts = list(ex.map(lambda fn: clang_ast(src, job.get("filters", {}).get(fn, fn), incl), job["functions"]))
-    known, text = dict(job.get("known", {})), ""
+    text = ""
+    if job.get("emit_constants"):
+        # the values read from the C++ also become Lean constants `k_<name>` that tie theorems can mention
+        for nm, lt in job.get("auto_constants", {}).items():
+            text += "def k_%s : %s := %s\n" % (nm, lt, job["constants"][nm][0])
+        text += "\n"
     for fn, docs in zip(job["functions"], asts):
-        decl = find_def(docs, fn)
+        decl = find_def(docs, fn, job.get("classes", {}).get(fn))
         ft = FnTrans(job, decl, known)
         text += ft.translate()
-        known[fn] = ft
-    head = PRELUDE.format(src=job["src"], ns=job["ns"],
-                          imports="\n".join("import " + i for i in job.get("imports", [])),
-                          opens="\n".join("open " + o for o in job.get("opens", [])))
-    return head + text + "end %s\n" % job["ns"], known
+        known[ft.name] = ft
+    return text, known
 
 
 def write_if_changed(path, text):
